@@ -329,6 +329,16 @@ func fmtCases(format string, keys []string, thorough bool, emit func(rc recCase)
 		c.Prior = true
 		emit(c)
 	}
+	// L7: the explicit-timestamp entry point without a program counter, caller field on and off
+	if format != "color" {
+		for _, attrs := range [][]attrNode{nil, {leaf("k", "int:-1")}, {group("g", leaf("x", "string:quote")), leaf("z", "bool:true")}} {
+			rc := base
+			rc.Layer = "L7-no-program-counter"
+			rc.Entry = "WriteThru-pc0"
+			rc.Attrs = attrs
+			variants(rc)
+		}
+	}
 	// L6: logger names are string-like values too
 	if format != "color" {
 		for _, nm := range []string{`api" role="admin`, "a\nb", `a\b`, "a b", "é\u2028", "a\xffb", "a\x1b[31mb", "a\tb\x01", `","level":"panic`, "k=v"} {
